@@ -26,6 +26,7 @@ ALPHA = {
     "complex": [1j, 2 + 0j],
     "str": ["a", "B", ""],
     "date": [D1, D2],
+    "fmt": ["%s", "<%s>", "%r"],          # str % x is printf formatting: defined by Python for every right operand
 }
 SCALARS = dict(ALPHA, timedelta=[timedelta(days=1), timedelta(days=-40)])
 OPS = {"add": operator.add, "sub": operator.sub, "mul": operator.mul, "truediv": operator.truediv,
@@ -434,6 +435,8 @@ METHOD_KINDS = {
     "int": (int, [0, 5, -3, 255]),
     "float": (float, [0.5, -2.0, 3.25]),
     "date": (date, [D1, D2]),
+    # a float vector that holds an int (an int belongs to the float kind): element i's OWN method is what must be applied
+    "float+int": (float, [1, 2.5, -3, 0.5]),
 }
 
 
@@ -577,11 +580,18 @@ def unit_table_columnwise(unit):
     for lay in layouts:
         for opn, op in OPS.items():
             rights = [("scalar", y) for y in scal] + [("table", lay2) for lay2 in layouts if len(lay2) == len(lay)][:12]
+            # vector operands: as long as the columns; as long as the column COUNT; both also row-oriented (v.T)
+            rights += [("vector", ("plain", 2)), ("vector", ("row", 2)), ("vector", ("plain", len(lay))), ("vector", ("row", len(lay))), ("vector", ("row", 3))]
             for rk, y in rights:
                 agg.evals += 1; agg.transitions += 1 + len(lay); agg.states += 1
                 case = {"table_columns": list(lay), "op": opn, "right": rk, "right_value": repr(y)}
                 t = Table([Vector(list(cols[k]), name=f"c{i}") for i, k in enumerate(lay)])
                 yt = Table([Vector(list(cols[k]), name=f"d{i}") for i, k in enumerate(y)]) if rk == "table" else y
+                if rk == "vector":
+                    yt = Vector([3, 5, 7][:y[1]])
+                    if y[0] == "row":
+                        yt = yt.T
+                    y = yt
                 want = []
                 for i, k in enumerate(lay):
                     c = Vector(list(cols[k]), name=f"c{i}")
